@@ -389,7 +389,7 @@ class ConfigParser(object):
   """Performs initial stage (tokenizing) of generating a potential model
   suitable for tabulation functions."""
 
-  _signature_re = re.compile(r"^([a-zA-Z]\w*?)\((.*)\)")
+  _signature_re = re.compile(r"^([a-zA-Z]\w*?)\((.*)\)$")
 
   # Map of sections relevant to ConfigParser
   # Keys are section keys as the appear to the _config_parser (_RawConfigParser)
